@@ -36,7 +36,9 @@ def gen_cases(ck):
                            "conns": conns, "timeout_s": 60 if quick else 240,
                            "c2s": c2s or [1], "s2c": s2c or [1],
                            "server_delay_ms": rng.choice([0, 0, 2, 10]), "client_delay_ms": rng.choice([0, 0, 2, 10]),
-                           "from_fd": rng.random() < 0.5, "pipeline": rng.random() < 0.4})
+                           "from_fd": rng.random() < 0.5, "pipeline": rng.random() < 0.4,
+                           # every third scenario: the inherited listener is bound in the abstract namespace
+                           "abstract": i % 3 == 1})
     # pipelined small messages of every size 1..N: the end of the queued data passes through every
     # alignment relative to the write buffer's growth steps
     for rt in ("tokio", "smol"):
@@ -155,6 +157,10 @@ def main():
         if r.get("panic") or r.get("crash"):
             ck.violation("socket run panicked or hung (%s)" % c["runtime"], {"case": c, "impl": r}, tag="ip%d" % c["id"])
             continue
+        if r.get("listener_error"):
+            ck.violation("a listener could not be built from an inherited descriptor bound in the abstract namespace "
+                         "(%s): %s" % (c["runtime"], r["listener_error"]), {"case": c, "impl": r}, tag="il%d" % c["id"])
+            continue
         bad = r["write_errors"] or len(r["recv"]) != c["conns"]
         for rc_ in r["recv"]:
             bad = bad or rc_["c2s"] != ["ok"] * len(c["c2s"]) or rc_["s2c"] != ["ok"] * len(c["s2c"])
@@ -165,6 +171,7 @@ def main():
         if bad:
             ck.violation("messages sent over a real socket (%s, %d connections, listener %s) were not all received "
                          "intact and in order / ids not distinct" % (c["runtime"], c["conns"],
+                                                                      "from inherited fd (abstract namespace)" if c.get("abstract") else
                                                                       "from inherited fd" if c["from_fd"] else "bound"),
                          {"case": c, "impl": r}, tag="i%d" % c["id"])
     # ---- abandoned sends: model correspondence with the measured number of bytes the kernel took
